@@ -208,7 +208,7 @@ Lemma step_transparent : forall m ca st o, sym_intact st -> wf_op o ->
   snd (step true m ca st o) = snd (step true m None st o) /\
   sym_intact (snd (step true m ca st o)).
 Proof.
-  intros m ca st o H W. destruct o as [p obj|sel|nms|p e]; cbn [step].
+  intros m ca st o H W. destruct o as [p obj|sel|nms|p e|p]; cbn [step].
   - cbn [fst snd]. repeat split. apply sym_intact_put; assumption.
   - rewrite (sym_load_transparent m _ ca st H).
     destruct (sym_load true m _ None st); cbn [fst snd option_map]; repeat split; exact H.
@@ -217,6 +217,7 @@ Proof.
     destruct (forallb _ nms && forallb _ _); cbn [fst snd option_map]; repeat split; try exact H.
     apply sym_intact_fold_remove, H.
   - cbn [fst snd option_map]. repeat split. exact H.
+  - cbn [fst snd]. repeat split. apply sym_intact_remove, H.
 Qed.
 
 Definition strip (h : list (option nat * mode * op)) : list (option nat * mode * op) :=
